@@ -13,7 +13,7 @@ CLAIMED = {
             'trusts the stand-alone single-property 3D/2D call of a twin world as the model; histories are finite samples biased to partial-key collisions (sibling points sharing a depth or a position, clamped shallow depths, layered water worlds); at most three worlds alive per process',
             'DESIGN.md section 4, C01'),
     'C03': ('runtime monitoring: reference-model monitor (closed-form background state evaluated next to the real code) over generated worlds and points through the 3D and the 2D entry points, on the ASan+UBSan build',
-            'exploration: held on the sampled worlds/points (thousands of points far outside every feature and every sampled point with tag -1, both coordinate systems, random global constants); forced surface temperature checked at depth 0 for every batching; 320 single-feature worlds per quick run where C04's exact footprint oracles decide "outside" right next to the boundary',
+            'exploration: held on the sampled worlds/points (thousands of points far outside every feature and every sampled point with tag -1, both coordinate systems, random global constants); forced surface temperature checked at depth 0 for every batching; 320 single-feature worlds per quick run where the exact footprint oracles of C04 decide "outside" right next to the boundary',
             'the generator\'s truth record decides which points are far outside every feature (near the features the 3D tag -1 does); tolerance 1e-12 relative on the adiabat; a fault of the 2D mapping that keeps points outside every feature is invisible here (C09 sees it)',
             'DESIGN.md section 4, C03'),
     'C16': ('runtime monitoring: differential monitor - the same command stream through the native World, the C API and wrapper_cpp in one process, bit equality; file-system observation of create_world\'s output directory',
